@@ -9,12 +9,15 @@ mod c06;
 mod c07;
 mod c08;
 mod c09;
+mod c10;
 mod c12;
 mod c14;
 mod c16;
+mod c17;
 mod c18;
 mod c19;
 mod classify;
+mod edworld;
 mod engine;
 mod json;
 mod keys;
@@ -68,9 +71,11 @@ fn main() {
         "C07" => dispatch(&c07::C07, mode, &rest),
         "C08" => dispatch(&c08::C08, mode, &rest),
         "C09" => dispatch(&c09::C09, mode, &rest),
+        "C10" => dispatch(&c10::C10, mode, &rest),
         "C12" => dispatch(&c12::C12, mode, &rest),
         "C14" => dispatch(&c14::C14, mode, &rest),
         "C16" => dispatch(&c16::C16, mode, &rest),
+        "C17" => dispatch(&c17::C17, mode, &rest),
         "C18" => dispatch(&c18::C18, mode, &rest),
         "C19" => dispatch(&c19::C19, mode, &rest),
         _ => {
